@@ -1,12 +1,13 @@
 #!/bin/bash
 # usage: tools/seed_rerun.sh <seed-tag> <check-id>...  - applies /verif/seeded/<tag>/patch.diff to a fresh worktree of /repo HEAD and
 # runs the quick tier of the given checks against it (expected: exit 1). Prints one line per check.
-cd /verif
+ROOT="$(cd "$(dirname "$0")/.." && pwd)"
+cd "$ROOT"
 tag=$1; shift
 wt=/tmp/rerun-$tag
 git -C /repo worktree remove --force $wt 2>/dev/null
 git -C /repo worktree add -q $wt HEAD || exit 3
-git -C $wt apply /verif/seeded/$tag/patch.diff || { echo "$tag: patch does not apply to HEAD"; git -C /repo worktree remove --force $wt; exit 3; }
+git -C $wt apply $ROOT/seeded/$tag/patch.diff || { echo "$tag: patch does not apply to HEAD"; git -C /repo worktree remove --force $wt; exit 3; }
 for c in "$@"; do
   VERIF_REPO=$wt ./check run $c > /tmp/rerun-$tag-$c.log 2>&1
   echo "$tag $c exit=$? $(grep -o 'violations=[0-9]*' /tmp/rerun-$tag-$c.log | tail -1)"
